@@ -301,7 +301,7 @@ Section PrimePower.
       else pp_small fuel rest u
     end.
   (* for (nth = 2;; ++nth) { if (!isprime(nth)) continue; exact = root(q, u2, nth);
-       if (exact) return isprime(q) ? nth : 0 [repaired: nth * isprimepower(q, q)];  if (|q| < SMALLEST_OMITTED_PRIME) return 0; } *)
+       if (exact) return isprime(q) ? nth : 0 [repaired: q <= 1 ? 0 : nth * isprimepower(q, q)];  if (|q| < SMALLEST_OMITTED_PRIME) return 0; } *)
   Fixpoint pp_root (rec : Z -> option (Z * Z)) (fuel : nat) (nth u2 : Z) : option (Z * Z) :=
     match fuel with
     | O => None
@@ -313,7 +313,8 @@ Section PrimePower.
         if exact then
           (if isprime q then Some (nth, q)
            else if IPP_RECURSE then
-             match rec q with None => None | Some (e, q') => Some (nth * e, q') end
+             (if q <=? 1 then Some (0, q) else
+              match rec q with None => None | Some (e, q') => Some (nth * e, q') end)
            else Some (0, q))
         else if Z.abs q <? SMALLEST_OMITTED_PRIME then Some (0, q)
         else pp_root rec f (nth + 1) u2
